@@ -44,8 +44,10 @@ func ToOverviewStats(input *stats.Sample) *model.OverviewStats {
 	}
 
 	// Scott's normal reference rule
+	// An empty sample (a cycle no iteration reached, or no iterations at all) has h = 0/0 = NaN
+	// and NaN bounds: it must take the single-bin path, int(NaN) is not a bin count.
 	h := (3.49 * std) / (math.Pow(float64(len(input.Xs)), 1.0/3.0))
-	if h == 0.0 || datamax == dataMin {
+	if len(input.Xs) == 0 || h == 0.0 || datamax == dataMin {
 		hist := make([]uint32, 1)
 		hist[0] = uint32(len(input.Xs))
 		out.Hist = hist
